@@ -96,6 +96,8 @@ structure MSt where
   now : Nat := 1000
   /-- handle → session uid of a live `ReservedSession` -/
   reserved : List (Nat × Nat) := []
+  /-- handles on which `complete()` was called while the handle stayed alive -/
+  completed : List Nat := []
   /-- handle → (session uid, slot) of a live `Exchange` object -/
   exchanges : List (Nat × Nat × Nat) := []
   /-- bare `ReliableMessage` of the `mrp` cases -/
@@ -149,6 +151,15 @@ def tabOp (st : MSt) (w : List String) (implRes : String) : MSt × String :=
       | some (_, uid) =>
         let (t, ok) := st.t.reservedUpdate uid (n 2) (n 3) (parseMode (w.getD 4 "p")) st.now
         ({ st with t := t }, if ok then "ok" else "err NoSession")
+  | "cpl" =>
+    match hnum (w.getD 1 "") with
+    | none => (st, "bad")
+    | some h =>
+      match st.reserved.find? (·.1 == h) with
+      | none => (st, "nohandle")
+      | some (_, uid) =>
+        let (t, _) := st.t.reservedComplete uid st.now
+        ({ st with t := t, completed := h :: st.completed }, "ok")
   | "cmp" | "drp" =>
     match hnum (w.getD 1 "") with
     | none => (st, "bad")
@@ -156,8 +167,9 @@ def tabOp (st : MSt) (w : List String) (implRes : String) : MSt × String :=
       match st.reserved.find? (·.1 == h) with
       | none => (st, "nohandle")
       | some (_, uid) =>
-        let st := { st with reserved := st.reserved.filter (·.1 != h) }
-        if w.getD 0 "" = "cmp" then
+        let wasCompleted := st.completed.contains h
+        let st := { st with reserved := st.reserved.filter (·.1 != h), completed := st.completed.filter (· != h) }
+        if w.getD 0 "" = "cmp" || wasCompleted then
           let (t, r) := st.t.reservedComplete uid st.now
           match r with
           | .ok _ => ({ st with t := t }, "ok")
